@@ -521,6 +521,16 @@ class Interp:
                 a = self.ev(e.args[0])
                 if isinstance(a, Mask):
                     return Idx(a, 0)
+            if cn in ("itertools.compress", "compress") and len(e.args) == 2 and isinstance(e.args[0], ast.Call) and (call_name(e.args[0]) or "") in ("itertools.count", "count") and not e.args[0].args:
+                # compress(count(), mask): the positions where the mask holds, in increasing order
+                a = self.ev(e.args[1])
+                if isinstance(a, Mask):
+                    return ("positions", a)
+            if cn == "next" and len(e.args) == 2 and isinstance(e.args[1], ast.Constant) and e.args[1].value == 0:
+                # next(<positions where the mask holds>, 0): the first such position, 0 if there is none
+                a = self.ev(e.args[0])
+                if isinstance(a, tuple) and len(a) == 2 and a[0] == "positions":
+                    return Idx(a[1], 0)
             if cn in ("np.searchsorted",) and len(e.args) >= 2:
                 tb, v = self.ev(e.args[0]), self.ev(e.args[1])
                 side = kw.get("side", e.args[2] if len(e.args) > 2 else ast.Constant(value="left"))
